@@ -505,6 +505,10 @@ func (c *Ctx) bin(op Op, a, b *Term) *Term {
 		if a.IsConst() && !b.IsConst() {
 			a, b = b, a
 		}
+		// a + b with disjoint non-zero bit regions is a | b (no carries)
+		if r := c.orSegmentsMode(a, b, true); r != nil {
+			return r
+		}
 	case OpBVSub:
 		if isZero(b) {
 			return a
@@ -646,7 +650,11 @@ func (c *Ctx) segs(t *Term, out []seg) []seg {
 
 // orSegments rewrites a|b as a concatenation when the operands have disjoint zero regions
 // (byte-assembly patterns such as x<<56 | y<<48 | ...). nil when nothing is gained.
-func (c *Ctx) orSegments(a, b *Term) *Term {
+func (c *Ctx) orSegments(a, b *Term) *Term { return c.orSegmentsMode(a, b, false) }
+
+// orSegmentsMode: with disjointOnly the rewrite is applied only when no chunk has bits from both
+// operands (then a+b == a|b).
+func (c *Ctx) orSegmentsMode(a, b *Term, disjointOnly bool) *Term {
 	if !(a.Op == OpConcat || a.Op == OpZExt) && !(b.Op == OpConcat || b.Op == OpZExt) {
 		return nil
 	}
@@ -694,6 +702,9 @@ func (c *Ctx) orSegments(a, b *Term) *Term {
 			chunk = pa
 			gained = true
 		default:
+			if disjointOnly {
+				return nil
+			}
 			if pa.IsConst() && pb.IsConst() && n <= 64 {
 				chunk = c.BV(n, pa.V|pb.V)
 			} else if pa == pb {
